@@ -1075,3 +1075,236 @@ Proof. vm_compute. repeat split; reflexivity. Qed.
 Example setmss_runs_ok_sat :
   setmss_runs_ok [SetRemoteWindow 1000000; SetMss 1000; SetMss 1234; SetRemoteWindow 1000000] = true.
 Proof. vm_compute. reflexivity. Qed.
+
+(* ---- cumulative slow-start bound: window() <= 2 * mss_max + acked bytes before any loss *)
+Definition ss_J (n : Z) (s : cubic) (mm acked : Z) : Prop :=
+  mss_ok (mss s) /\ (mss s <= mm)%Z /\ rwnd_ok (rwnd s) /\ ssthresh s = B754_infinity false /\
+  is_finite (cwnd s) = true /\
+  2 - IZR n * / 524288 <= B2R (cwnd s) * IZR (mss s) <= IZR (2 * mm + acked) + IZR n * / 524288.
+
+Lemma flt_fin_inf : forall c : f64, is_finite c = true -> flt c (B754_infinity false) = true.
+Proof. intros c F. destruct c as [s|s| |s m e B]; try discriminate F; destruct s; reflexivity. Qed.
+
+Lemma ss_acc_mono : forall ops mm acked, forallb c15_op_dom ops = true ->
+  (mm <= fst (ss_acc mm acked ops) /\ acked <= snd (ss_acc mm acked ops))%Z.
+Proof.
+  induction ops as [|o ops IH]; intros mm acked Hd; [cbn; lia|].
+  cbn [forallb] in Hd. apply andb_true_iff in Hd. destruct Hd as [Hd1 Hd2].
+  destruct o as [win|now len rtt| |now|cb sb|m']; cbn [ss_acc].
+  - apply IH; exact Hd2.
+  - destruct (IH mm (acked + len)%Z Hd2) as [H1 H2]. unfold c15_op_dom, c15_u32 in Hd1. split; lia.
+  - apply IH; exact Hd2.
+  - apply IH; exact Hd2.
+  - apply IH; exact Hd2.
+  - destruct (IH (Z.max mm m') acked Hd2) as [H1 H2]. split; lia.
+Qed.
+
+Section Cumulative.
+Variable cbrt : f64 -> f64.
+Variable powf3 : f64 -> f64.
+
+(* one effective slow-start ack, as a real inequality on cwnd * mss *)
+Lemma ss_ack_real : forall B L e1 e2, 0 <= B <= 4294967297 -> 0 <= L <= 4294967296 ->
+  Rabs e1 <= / 9007199254740992 -> Rabs e2 <= / 9007199254740992 ->
+  (B + L * (1 + e1)) * (1 + e2) <= B + L + / 524288.
+Proof.
+  intros B L e1 e2 HB HL H1 H2. apply Rabs_le_inv in H1. apply Rabs_le_inv in H2.
+  assert (T1 : - / 2097152 <= L * e1 <= / 2097152) by (split; nra).
+  assert (HX : -1 <= B + L + L * e1 <= 8589934594) by lra.
+  assert (T2 : (B + L + L * e1) * e2 <= 8589934594 * / 9007199254740992).
+  { destruct (Rle_dec 0 e2) as [P|N]; nra. }
+  replace ((B + L * (1 + e1)) * (1 + e2)) with ((B + L + L * e1) + (B + L + L * e1) * e2) by ring.
+  lra.
+Qed.
+
+Lemma ss_step : forall n s mm acked o s', ss_J n s mm acked ->
+  ss_only o = true -> c15_op_dom o = true ->
+  (0 <= n < SS_OPS_MAX)%Z -> (0 <= acked)%Z ->
+  (2 * fst (ss_acc mm acked [o]) + snd (ss_acc mm acked [o]) <= 4294967295)%Z ->
+  cubic_step cbrt powf3 s o = Some s' ->
+  ss_J (n + 1) s' (fst (ss_acc mm acked [o])) (snd (ss_acc mm acked [o])).
+Proof.
+  intros n s mm acked o s' (Hm & Hmm & Hok & Es & Fc & HB) Hss Hd Hn Ha Htot E.
+  pose proof (mss_R _ Hm) as HM.
+  assert (Hn' : 0 <= IZR n <= 262143) by (unfold SS_OPS_MAX in Hn; split; apply IZR_le; lia).
+  assert (Hn1 : IZR (n + 1) = IZR n + 1) by (rewrite plus_IZR; reflexivity).
+  destruct o as [win|now len rtt| |now|cb sb|m']; try discriminate Hss;
+    cbn [cubic_step] in E; cbn [ss_acc fst snd] in *.
+  - (* SetRemoteWindow *)
+    injection E as <-. unfold ss_J. cbn [cubic_set_remote_window mss rwnd ssthresh cwnd].
+    unfold c15_op_dom in Hd.
+    refine (conj Hm (conj Hmm (conj _ (conj Es (conj Fc _))))).
+    + apply set_rw_ok; [exact Hm | unfold c15_u32, M32 in Hd; lia].
+    + rewrite Hn1. split; lra.
+  - (* OnAck *)
+    unfold c15_op_dom in Hd. assert (Hlen : (0 <= len < 2 ^ 32)%Z) by (unfold c15_u32, M32 in Hd; lia).
+    assert (HL : 0 <= IZR len <= 4294967296) by (split; apply IZR_le; lia).
+    assert (Hsame : ss_J (n + 1) s mm (acked + len)).
+    { unfold ss_J. refine (conj Hm (conj Hmm (conj Hok (conj Es (conj Fc _))))).
+      rewrite Hn1. replace (2 * mm + (acked + len))%Z with ((2 * mm + acked) + len)%Z by ring.
+      rewrite (plus_IZR (2 * mm + acked)). split; lra. }
+    destruct (Z.eq_dec len 0) as [E0|Hnz].
+    { unfold cubic_on_ack in E. rewrite E0 in E. cbn [Z.eqb] in E. injection E as <-. exact Hsame. }
+    destruct (fge (cwnd s) (rwnd s)) eqn:Hge.
+    { unfold cubic_on_ack in E. destruct (Z.eqb_spec len 0) as [C|_]; [contradiction|].
+      rewrite Hge in E. injection E as <-. exact Hsame. }
+    assert (Hc0 : 0 <= B2R (cwnd s)).
+    { assert (0 <= B2R (cwnd s) * IZR (mss s)) by lra.
+      destruct (Rle_dec 0 (B2R (cwnd s))) as [|N]; [assumption|]. exfalso. nra. }
+    assert (Hlt : flt (cwnd s) (ssthresh s) = true) by (rewrite Es; apply flt_fin_inf; exact Fc).
+    assert (Hl' : (0 < len < 2 ^ 32)%Z) by lia.
+    destruct (slow_start_mss_units powf3 s now len rtt Hm Hok Hl' Fc Hc0 Hge Hlt)
+      as (s'' & E' & _ & Fc' & Vc' & _ & Es' & Em' & Er').
+    rewrite E in E'. injection E' as <-.
+    unfold ss_J. rewrite Em', Er', Es'.
+    refine (conj Hm (conj Hmm (conj Hok (conj Es (conj Fc' _))))).
+    rewrite Vc', Hn1.
+    set (c := B2R (cwnd s)) in *. set (M := IZR (mss s)) in *. set (L := IZR len) in *.
+    assert (HL1 : 1 <= L) by (unfold L; apply IZR_le; lia).
+    assert (Hinv : / 65536 <= / M <= 1).
+    { split; [apply Rinv_le_contravar; lra|]. rewrite <- Rinv_1. apply Rinv_le_contravar; lra. }
+    assert (HLM : / 65536 <= L / M) by (unfold Rdiv; nra).
+    destruct (rnd_rel (L / M)) as (e1 & He1 & E1); [apply tiny_le; exact HLM|].
+    assert (Hq : / 65536 <= rnd (L / M)).
+    { apply rnd_ge_fmt; [|exact HLM]. replace (/ 65536) with (bpow radix2 (-16)) by reflexivity.
+      apply generic_format_FLT_bpow; [auto with typeclass_instances | lia]. }
+    destruct (rnd_rel (c + rnd (L / M))) as (e2 & He2 & E2); [apply tiny_le; lra|].
+    rewrite eps_val in He1, He2.
+    set (a := rnd (c + rnd (L / M))) in *.
+    assert (HaM : a * M = (c * M + L * (1 + e1)) * (1 + e2)).
+    { rewrite E2, E1. field. lra. }
+    assert (Htot' : IZR (2 * mm + (acked + len)) <= 4294967295) by (apply IZR_le; lia).
+    replace (2 * mm + (acked + len))%Z with ((2 * mm + acked) + len)%Z in * by ring.
+    rewrite (plus_IZR (2 * mm + acked)) in *. fold L in Htot' |- *.
+    assert (HBup : 0 <= c * M <= 4294967297) by lra.
+    pose proof (ss_ack_real (c * M) L e1 e2 HBup (conj (proj1 HL) (proj2 HL)) He1 He2) as Hack.
+    rewrite <- HaM in Hack.
+    assert (Hmm' : 2 * M <= IZR (2 * mm + acked)).
+    { rewrite plus_IZR, mult_IZR. assert (M <= IZR mm) by (apply IZR_le; exact Hmm).
+      assert (0 <= IZR acked) by (apply IZR_le; exact Ha). lra. }
+    assert (Hcw : 2 <= Rmax (Rmin a (B2R (rwnd s))) 2 <= Rmax a 2)
+      by (unfold Rmax, Rmin; repeat destruct (Rle_dec _ _); lra).
+    set (c' := Rmax (Rmin a (B2R (rwnd s))) 2) in *.
+    split; [nra|].
+    assert (c' * M <= Rmax (a * M) (2 * M)).
+    { unfold Rmax in *. destruct (Rle_dec a 2); destruct (Rle_dec (a * M) (2 * M)); nra. }
+    assert (Rmax (a * M) (2 * M) <= IZR (2 * mm + acked) + L + (IZR n + 1) * / 524288).
+    { apply Rmax_lub; lra. }
+    lra.
+  - (* SetMss *)
+    injection E as <-. unfold c15_op_dom in Hd. apply mss_ok_b in Hd.
+    assert (Hmax : IZR (2 * mm + acked) <= IZR (2 * Z.max mm m' + acked)) by (apply IZR_le; lia).
+    destruct (Z.eq_dec (mss s) m') as [Eq|Ne].
+    + assert (Es' : cubic_set_mss s m' = s) by (unfold cubic_set_mss; rewrite Eq, Z.eqb_refl; reflexivity).
+      rewrite Es'. unfold ss_J. refine (conj Hm (conj _ (conj Hok (conj Es (conj Fc _))))); [lia|].
+      rewrite Hn1. split; lra.
+    + assert (Htot' : IZR (2 * Z.max mm m' + acked) <= 4294967295) by (apply IZR_le; lia).
+      assert (HBr : 1 <= B2R (cwnd s) * IZR (mss s) <= 4294967296) by (split; lra).
+      assert (Hinv : / 65536 <= / IZR (mss s) <= 1).
+      { split; [apply Rinv_le_contravar; lra|]. rewrite <- Rinv_1. apply Rinv_le_contravar; lra. }
+      assert (Hc : / 65536 <= B2R (cwnd s) <= 4294967296).
+      { assert (Ec : B2R (cwnd s) = B2R (cwnd s) * IZR (mss s) * / IZR (mss s)) by (field; lra).
+        rewrite Ec. split; nra. }
+      destruct (set_mss_rescales s m' Hm Hd Ne Fc) as (_ & Em' & Er' & Fc' & d & Hdd & Eq').
+      { split; [|lra]. apply Rle_trans with (/ 65536); [|lra]. apply Rinv_le_contravar; lra. }
+      cbv zeta in Em', Er', Fc', Eq'. rewrite eps_val in Hdd. apply Rabs_le_inv in Hdd.
+      assert (Ess : ssthresh (cubic_set_mss s m') = B754_infinity false).
+      { unfold cubic_set_mss. destruct (Z.eqb_spec (mss s) m') as [C|_]; [contradiction|].
+        cbn [ssthresh]. rewrite Es. destruct (rescale_ok _ _ Hm Hd) as [Fr Hr].
+        destruct (finite_sign _ Fr Hr) as (mr & er & Br & Er). rewrite Er. reflexivity. }
+      unfold ss_J. rewrite Em', Er'.
+      refine (conj Hd (conj _ (conj Hok (conj Ess (conj Fc' _))))); [lia|].
+      rewrite Eq', Hn1.
+      set (B := B2R (cwnd s) * IZR (mss s)) in *.
+      assert (- / 524288 <= B * d <= / 524288) by (split; nra).
+      split; lra.
+Qed.
+
+Lemma ss_run : forall ops n s mm acked s', ss_J n s mm acked ->
+  forallb ss_only ops = true -> forallb c15_op_dom ops = true ->
+  (0 <= n)%Z -> (n + Z.of_nat (length ops) <= SS_OPS_MAX)%Z -> (0 <= acked)%Z ->
+  (2 * fst (ss_acc mm acked ops) + snd (ss_acc mm acked ops) <= 4294967295)%Z ->
+  cubic_run cbrt powf3 s ops = Some s' ->
+  ss_J (n + Z.of_nat (length ops)) s' (fst (ss_acc mm acked ops)) (snd (ss_acc mm acked ops)).
+Proof.
+  induction ops as [|o ops IH]; intros n s mm acked s' HJ Hss Hd Hn Hlen Ha Htot E.
+  - cbn [cubic_run] in E. injection E as <-. cbn [length Z.of_nat ss_acc fst snd].
+    rewrite Z.add_0_r. exact HJ.
+  - cbn [forallb] in Hss, Hd. apply andb_true_iff in Hss. destruct Hss as [Hss1 Hss2].
+    apply andb_true_iff in Hd. destruct Hd as [Hd1 Hd2].
+    cbn [length] in *. rewrite Nat2Z.inj_succ in *.
+    cbn [cubic_run] in E.
+    destruct (cubic_step cbrt powf3 s o) as [s1|] eqn:E1; cbn [bind] in E; [|discriminate E].
+    assert (Hsplit : ss_acc mm acked (o :: ops) =
+                     ss_acc (fst (ss_acc mm acked [o])) (snd (ss_acc mm acked [o])) ops)
+      by (destruct o; reflexivity).
+    rewrite Hsplit in *.
+    set (mm1 := fst (ss_acc mm acked [o])) in *. set (a1 := snd (ss_acc mm acked [o])) in *.
+    destruct (ss_acc_mono ops mm1 a1 Hd2) as [Hmono1 Hmono2].
+    assert (Ha1 : (0 <= a1)%Z).
+    { unfold a1. destruct o; cbn [ss_acc snd]; try lia.
+      unfold c15_op_dom, c15_u32 in Hd1. lia. }
+    assert (HJ1 : ss_J (n + 1) s1 mm1 a1).
+    { apply (ss_step n s mm acked o s1 HJ Hss1 Hd1); [unfold SS_OPS_MAX in *; lia | exact Ha | | exact E1].
+      fold mm1 a1. lia. }
+    replace (n + Z.succ (Z.of_nat (length ops)))%Z with ((n + 1) + Z.of_nat (length ops))%Z by lia.
+    apply (IH (n + 1)%Z s1 mm1 a1 s' HJ1 Hss2 Hd2); [lia | lia | exact Ha1 | exact Htot | exact E].
+Qed.
+
+Lemma ss_J_window : forall n s mm acked, ss_J n s mm acked -> (0 <= n <= SS_OPS_MAX)%Z ->
+  (0 <= acked)%Z -> (2 * mm + acked <= 4294967295)%Z ->
+  (cubic_window s <= 2 * mm + acked)%Z.
+Proof.
+  intros n s mm acked (Hm & Hmm & Hok & Es & Fc & HB) Hn Ha Htot.
+  pose proof (mss_R _ Hm) as HM.
+  assert (Hn' : 0 <= IZR n <= 262144) by (unfold SS_OPS_MAX in Hn; split; apply IZR_le; lia).
+  assert (Htot' : IZR (2 * mm + acked) <= 4294967295) by (apply IZR_le; exact Htot).
+  rewrite (window_val_fin s Hm Hok Fc).
+  destruct (clamp_range (B2R (cwnd s)) (B2R (rwnd s)) (proj1 (proj2 Hok))) as [V0 V1].
+  assert (Hv : clamp (B2R (cwnd s)) (B2R (rwnd s)) <= Rmax (B2R (cwnd s)) 2)
+    by (unfold clamp; apply Rmin_l).
+  set (v := clamp (B2R (cwnd s)) (B2R (rwnd s))) in *.
+  set (c := B2R (cwnd s)) in *. set (M := IZR (mss s)) in *.
+  assert (Hmm' : 2 * M <= IZR (2 * mm + acked)).
+  { rewrite plus_IZR, mult_IZR. assert (M <= IZR mm) by (apply IZR_le; exact Hmm).
+    assert (0 <= IZR acked) by (apply IZR_le; exact Ha). lra. }
+  assert (HvM : v * M <= IZR (2 * mm + acked) + / 2).
+  { assert (v * M <= Rmax (c * M) (2 * M)).
+    { unfold Rmax in *. destruct (Rle_dec c 2); destruct (Rle_dec (c * M) (2 * M)); nra. }
+    assert (Rmax (c * M) (2 * M) <= IZR (2 * mm + acked) + / 2) by (apply Rmax_lub; lra).
+    lra. }
+  assert (Hx : 0 <= v * M <= 4294967296) by (split; nra).
+  pose proof (err_2_32 _ Hx) as Er. apply Rabs_le_inv in Er.
+  apply Ztrunc_lt_succ; [apply rnd_ge_0; lra | lra].
+Qed.
+
+(* C05 slow-start clause at the congestion controller: from Cubic::new, any sequence of at most 2^18
+   set_remote_window / on_ack / set_mss operations (no loss event) whose bound 2 mss_max + acked is
+   below 2^32: window() <= 2 * mss_max + acked bytes, EXACTLY (all float error absorbed). *)
+Lemma slow_start_cumulative : forall now0 mss0 ops s,
+  mss_ok mss0 -> forallb ss_only ops = true -> forallb c15_op_dom ops = true ->
+  (Z.of_nat (length ops) <= SS_OPS_MAX)%Z ->
+  (2 * fst (ss_acc mss0 0 ops) + snd (ss_acc mss0 0 ops) <= 4294967295)%Z ->
+  cubic_run cbrt powf3 (cubic_new now0 mss0) ops = Some s ->
+  (cubic_window s <= 2 * fst (ss_acc mss0 0 ops) + snd (ss_acc mss0 0 ops))%Z.
+Proof.
+  intros now0 mss0 ops s Hm Hss Hd Hlen Htot E.
+  destruct f64_2_correct as [F2 V2]. pose proof (mss_R _ Hm) as HM.
+  assert (HJ0 : ss_J 0 (cubic_new now0 mss0) mss0 0).
+  { unfold ss_J. cbn [cubic_new mss rwnd ssthresh cwnd].
+    refine (conj Hm (conj (Z.le_refl _) (conj _ (conj eq_refl (conj F2 _))))).
+    - split; [reflexivity|]. cbn [f64_zero B2R]. lra.
+    - rewrite V2, Z.add_0_r, mult_IZR. lra. }
+  destruct (ss_acc_mono ops mss0 0 Hd) as [M1 M2].
+  pose proof (ss_run ops 0 _ mss0 0 s HJ0 Hss Hd (Z.le_refl 0)) as HJ.
+  cbn [Z.add] in HJ. specialize (HJ Hlen (Z.le_refl 0) Htot E).
+  apply (ss_J_window _ s _ _ HJ); [lia | lia | exact Htot].
+Qed.
+End Cumulative.
+
+Example slow_start_cumulative_sat :
+  let ops := [SetRemoteWindow 1000000; OnAck 1 1500 1000; SetMss 1400; OnAck 2 700 1000] in
+  forallb ss_only ops = true /\ forallb c15_op_dom ops = true /\
+  ss_acc 1500 0 ops = (1500, 2200)%Z /\
+  option_map cubic_window (ex_reach ops) = Some 5200%Z.
+Proof. vm_compute. repeat split; reflexivity. Qed.
